@@ -472,6 +472,17 @@ where
   }
 }
 
+// Verification hook: numBits as carried on the wire.
+#[cfg(rustdds_verif)]
+impl<N> NumberSet<N>
+where
+  N: Clone + Debug + Hash + PartialEq + Eq + NumOps + From<i64>,
+{
+  pub(crate) fn verif_num_bits(&self) -> u32 {
+    self.num_bits
+  }
+}
+
 impl<'a, C: Context, N> Readable<'a, C> for NumberSet<N>
 where
   N:
